@@ -61,7 +61,8 @@ def unit(args: dict) -> dict:
             else:
                 out["divergent"] += 1
                 traces.append({"mi": e.mi, "tag": f"edge:{w}",
-                               "steps": [{"t": r[i][0]["now"], "op": steps[i]["op"], "out": r[i][1]} for i in range(len(r))]})
+                               "steps": [{"t": r[i][0]["now"], "op": steps[i]["op"], "out": r[i][1], "svcs": r[i][0]["svcs"], "timers": r[i][0]["timers"],
+                                          "config": r[i][0]["config"], "status": r[i][0]["status"]} for i in range(len(r))]})
                 tctx.append((b, steps, r))
         if edges:
             e0 = next((e for e in edges if e.step["op"] == "advance" and any(o[0] == "on_transition" for o in e.out)), edges[0])
@@ -105,6 +106,8 @@ def run(prop: str, tier: str, seed: int) -> int:
     q = tier == "quick"
     if prop == "C09":
         specs = gen.family_V(seed, 12 if q else 120)
+    elif prop == "C14":
+        specs = gen.family_X(seed, 7 if q else 70) + gen.family_V(seed + 1, 6 if q else 60)
     else:
         specs = gen.family_X(seed, 14 if q else 140)
     units = [{"specs": [sp], "maxnow": 200 if q else 320, "waits": (30,) if q else (20, 45), "depth": 7 if q else 9,
